@@ -1,6 +1,7 @@
 import RzmqModel.Props.C07
 #print axioms Rzmq.C07.limit_accepts_exact
 #print axioms Rzmq.C07.limit_rejects_next
+#print axioms Rzmq.C07.any_decoded_frame_is_within_the_limit
 #print axioms Rzmq.C07.decoders_never_panic
 #print axioms Rzmq.C07.needMore_bounded
 #print axioms Rzmq.C07.engine_never_panics
